@@ -17,6 +17,7 @@ Require Import Fggs.Proofs.Presentation Fggs.Proofs.Presentation_perm Fggs.Proof
                Fggs.Proofs.Presentation_dom Fggs.Proofs.Presentation_relabel Fggs.Proofs.Presentation_wf
                Fggs.Proofs.Presentation_cor
                Fggs.Proofs.Presentation_examples.
+Require Import Fggs.Model.EReal Fggs.Model.Trop Fggs.Proofs.Instances_present.
 
 (** * 1. order of the rules *)
 (** permuting the rule list leaves every Kleene iterate unchanged, in every commutative semiring *)
@@ -338,3 +339,37 @@ Proof.
         (conj (proj1 P_ex_values) (proj1 (proj2 P_ex_values))))))))))))).
 Qed.
 Print Assumptions C12_example_hypotheses.
+
+(** * carrier instances of [C12_presentation], no premises: the semiring laws of BoolSemiring,
+      RealSemiring (LogSemiring read through exp) and ViterbiSemiring are proved in
+      Proofs/SemiringLaws.v (C08) and discharged in Proofs/Instances_present.v *)
+Theorem C12_presentation_bool :
+  forall rho pel pnl G G' (w w' : env (R:=bool)),
+    wf_grammar G = true -> presents rho pel pnl G G' ->
+    (forall l idx, vlab G l -> vidx G l idx -> is_term G l = true ->
+                   w' (pel l) (pmap rho (ltype G l) idx) = w l idx) ->
+    forall k X xi, vlab G X -> vidx G X xi ->
+      Zk bool_ops G' w' k (pel X) (pmap rho (ltype G X) xi) = Zk bool_ops G w k X xi.
+Proof. exact bool_presentation. Qed.
+Print Assumptions C12_presentation_bool.
+
+Theorem C12_presentation_real :
+  forall rho pel pnl G G' (w w' : env (R:=ereal)),
+    wf_grammar G = true -> presents rho pel pnl G G' ->
+    (forall l idx, vlab G l -> vidx G l idx -> is_term G l = true ->
+                   w' (pel l) (pmap rho (ltype G l) idx) = w l idx) ->
+    forall k X xi, vlab G X -> vidx G X xi ->
+      Zk ereal_ops G' w' k (pel X) (pmap rho (ltype G X) xi) = Zk ereal_ops G w k X xi.
+Proof. exact real_presentation. Qed.
+Print Assumptions C12_presentation_real.
+
+Theorem C12_presentation_viterbi :
+  forall rho pel pnl G G' (w w' : env (R:=trop)),
+    wf_grammar G = true -> presents rho pel pnl G G' ->
+    (forall l idx, vlab G l -> vidx G l idx -> is_term G l = true ->
+                   w' (pel l) (pmap rho (ltype G l) idx) = w l idx) ->
+    forall k X xi, vlab G X -> vidx G X xi ->
+      Zk trop_ops G' w' k (pel X) (pmap rho (ltype G X) xi) = Zk trop_ops G w k X xi.
+Proof. exact trop_presentation. Qed.
+Print Assumptions C12_presentation_viterbi.
+
